@@ -43,7 +43,7 @@ NoTxn == [valid |-> FALSE]
 NoDry == [valid |-> FALSE]
 NoFlt == [valid |-> FALSE]
 NoSet == [valid |-> FALSE]
-Props == {"C01", "C02", "C03", "C04", "C05", "C06", "C07", "C08", "C09", "C10", "M"}
+Props == {"C01", "C02", "C03", "C04", "C05", "C06", "C07", "C08", "C09", "C10", "M", "X"}
 
 NoOpen == [id |-> "-", armed |-> FALSE, short |-> FALSE]
 OpenProj == [id |-> open.id, armed |-> open.armed]
@@ -241,10 +241,12 @@ ReplaceClauses(e, o) ==
       <<"C06", "DryRunLeavesNothingOpen", o.open.id = "-">>}
   ELSE
      {<<"C03", "ReplaceValidAccepted", e.ret = "ok">>,
-      <<"C01", "ReplaceApplied", o.d = cfg>>,
+      \* (not demanded by a listed property: the choice cases of the replace content lose against cases the intended
+      \*  store holds, such content is dropped silently - reported as an observation)
+      <<"X", "ReplaceApplied", o.d = cfg>>,
       <<"C02", "ReplaceKeepsIntents", o.I = intended>>,
       <<"C06", "ArmedAfterSet", o.open = [id |-> e.id, armed |-> TRUE]>>,
-      <<"C01", "ReplaceRunningTracksDevice", o.m = o.d>>}
+      <<"X", "ReplaceRunningTracksDevice", o.m = o.d>>}
 TxReplace(e) ==
   LET o == Obs(e)
       applied == e.ret = "ok" /\ ~e.dry /\ open.id = "-"
